@@ -717,7 +717,7 @@ impl<'a, 'ast> Visit<'ast> for Rules<'a> {
             }
             syn::Stmt::Expr(syn::Expr::MethodCall(mc), Some(_)) if mc.method == "drain" && mc.args.len() == 1 => {
                 if let syn::Expr::Range(rg) = &mc.args[0] {
-                    let zero = matches!(rg.start.as_deref(), Some(syn::Expr::Lit(syn::ExprLit { lit: syn::Lit::Int(i), .. })) if i.base10_digits() == "0");
+                    let zero = rg.start.is_none() || matches!(rg.start.as_deref(), Some(syn::Expr::Lit(syn::ExprLit { lit: syn::Lit::Int(i), .. })) if i.base10_digits() == "0");
                     if zero && rg.end.is_some() && matches!(rg.limits, syn::RangeLimits::HalfOpen(_)) {
                         let whole = self.r(mc.span());
                         let recv = self.src_part(mc.receiver.span());
@@ -1528,12 +1528,6 @@ fn emit_fn(src: &Src, path: &str, fd: &FnDir, bm: &[(String, String)], unit: &st
         }
     }
 
-    // the hints of a function are one proof script: if any of them cannot be re-attached to the
-    // (changed) code, none is spliced; the contract itself stays
-    if lost_hints.is_empty() {
-        edits.extend(hint_edits);
-    }
-
     // ---- declared textual substitutions (rule RS; must match exactly once)
     for (w, o, n) in &fd.substs {
         let all = w.ends_with('*');
@@ -1541,13 +1535,21 @@ fn emit_fn(src: &Src, path: &str, fd: &FnDir, bm: &[(String, String)], unit: &st
         let region = &src.text[lo..hi];
         let hits: Vec<usize> = region.match_indices(o.as_str()).map(|(i, _)| i).collect();
         if (all && hits.is_empty()) || (!all && hits.len() != 1) {
-            lost.push(format!("subst {} \"{}\" matches {} times", w, o, hits.len()));
+            // the construct this declared rewrite is about is no longer there (changed code): the
+            // function is extracted without it and treated like one that lost a proof hint
+            lost_hints.push(json!({"fn": format!("{}::{}", src.rel, path), "at": format!("subst {} {:?}", w, o), "clause": "", "matches": hits.len(), "vrs_line": fd.vrs_line}));
             continue;
         }
         for h in hits {
             let s = lo + h;
             edits.push(Edit { start: s, end: s + o.len(), rule: "RS".into(), parts: vec![lit(n)], origin: None, prio: 0 });
         }
+    }
+
+    // the hints of a function are one proof script: if any of them cannot be re-attached to the
+    // (changed) code, none is spliced; the contract itself stays
+    if lost_hints.is_empty() {
+        edits.extend(hint_edits);
     }
 
     // canary sites (vacuity guard): body entry and the end of every loop body
